@@ -4,8 +4,9 @@
   `reachable4_from` (DDProofs.Reach4) takes ANY good state.  Here: the states that the other ways
   of making a manager produce ARE good, so that a history continues in the new manager —
     * the constructor `BDD(levels)`: `newMgr_good` (DDProofs.Reach4New; it concludes `GoodParts`,
-      the clauses of `Good2` over notions that do not need DDProofs.Reach, because DD.Driver —
-      where `newMgr` lives — and DDProofs.Reach both define a `DD.Res`): `GoodParts.good3`;
+      the clauses of `Good2` over notions that do not need DDProofs.Reach; historically DD.Driver —
+      where `newMgr` lives — and DDProofs.Reach could not be imported together, now the driver's
+      result type is `DD.DRes`): `GoodParts.good3`;
     * `copy.copy(bdd)` (`mgrCopy`): `mgrCopy_start`, from ANY good state (the copy starts with
       reordering not enabled, the same nodes, counts and ledger);
     * `bdd.reduction()`: `reduction_start`, from ANY good state (the new manager holds nothing);
